@@ -53,6 +53,33 @@ def _cleanup():
         shutil.rmtree(d, ignore_errors=True)
 
 
+def _on_term(signum, frame):  # a check stopped by `timeout` (SIGTERM) still removes its scratch directories (atexit runs on SystemExit)
+    sys.exit(128 + signum)
+
+
+def _sweep_stale(max_age_s=12 * 3600):
+    """scratch directories of a run that was SIGKILLed are never removed by atexit: drop our own leftovers once they are half a day old"""
+    import time
+    tmp = os.environ.get('TMPDIR', '/tmp')
+    try:
+        for n in os.listdir(tmp):
+            if n.startswith('pi2') and '.' in n:
+                d = os.path.join(tmp, n)
+                if os.path.isdir(d) and not os.path.islink(d) and time.time() - os.path.getmtime(d) > max_age_s:
+                    shutil.rmtree(d, ignore_errors=True)
+    except OSError:
+        pass
+
+
+try:
+    import signal as _signal
+    if _signal.getsignal(_signal.SIGTERM) == _signal.SIG_DFL:
+        _signal.signal(_signal.SIGTERM, _on_term)
+except (ValueError, OSError):  # not the main thread
+    pass
+_sweep_stale()
+
+
 def sh(cmd, cwd=None, timeout=600, env=None, input=None):
     e = dict(os.environ)
     if env:
